@@ -118,8 +118,28 @@ def scan_assumptions(unit_text):
 
 # ------------------------------------------------------------------ native harness
 
+def _native_dir():
+    """The harness crate names /repo in its Cargo.toml. When VX_REPO points elsewhere (sweeps over seeded
+    changes in a scratch worktree) a copy of the crate with the path rewritten is used, with its own target dir."""
+    if os.path.abspath(C.REPO) == "/repo":
+        return NATIVE, NATIVE_TARGET
+    tagname = hashlib.sha256(os.path.abspath(C.REPO).encode()).hexdigest()[:10]
+    d = os.path.join(BUILD, "native-" + tagname)
+    os.makedirs(os.path.join(d, "src"), exist_ok=True)
+    for f in os.listdir(os.path.join(NATIVE, "src")):
+        src = os.path.join(NATIVE, "src", f)
+        dst = os.path.join(d, "src", f)
+        if not os.path.exists(dst) or open(src).read() != open(dst).read():
+            shutil.copyfile(src, dst)
+    toml = open(os.path.join(NATIVE, "Cargo.toml")).read().replace('path = "/repo"', 'path = "%s"' % os.path.abspath(C.REPO))
+    tp = os.path.join(d, "Cargo.toml")
+    if not os.path.exists(tp) or open(tp).read() != toml:
+        open(tp, "w").write(toml)
+    return d, os.path.join(BUILD, "native-target-" + tagname)
+
+
 def build_native(profile="release"):
-    """(Re)build the native harness against /repo's working tree. Returns path of the binary."""
+    """(Re)build the native harness against the repo working tree. Returns path of the binary."""
     ensure_dirs()
     ctx = C.Ctx()
     eg = ptspec.ExecGen(ctx.tt)
@@ -127,17 +147,18 @@ def build_native(profile="release"):
     gp = os.path.join(NATIVE, "src", "oracle_gen.rs")
     if not os.path.exists(gp) or open(gp).read() != gen:
         open(gp, "w").write(gen)
-    shutil.copyfile(os.path.join(C.REPO, "Cargo.lock"), os.path.join(NATIVE, "Cargo.lock"))
-    env = dict(os.environ, CARGO_TARGET_DIR=NATIVE_TARGET, CARGO_NET_OFFLINE="true")
+    ndir, ntarget = _native_dir()
+    shutil.copyfile(os.path.join(C.REPO, "Cargo.lock"), os.path.join(ndir, "Cargo.lock"))
+    env = dict(os.environ, CARGO_TARGET_DIR=ntarget, CARGO_NET_OFFLINE="true")
     flags = env.get("RUSTFLAGS", "")
     if "solstat_verif" not in flags:
         env["RUSTFLAGS"] = (flags + " --cfg solstat_verif").strip()
     cmd = ["cargo", "build", "--offline", "--profile", profile]
     t0 = time.time()
-    p = subprocess.run(cmd, cwd=NATIVE, env=env, capture_output=True, text=True)
+    p = subprocess.run(cmd, cwd=ndir, env=env, capture_output=True, text=True)
     if p.returncode != 0:
-        raise BuildError("native harness does not build against /repo:\n" + p.stderr[-4000:])
-    return os.path.join(NATIVE_TARGET, profile, "vxn"), round(time.time() - t0, 1)
+        raise BuildError("native harness does not build against the repo:\n" + p.stderr[-4000:])
+    return os.path.join(ntarget, profile, "vxn"), round(time.time() - t0, 1)
 
 
 class BuildError(Exception):
@@ -151,20 +172,21 @@ def build_repo_binary():
     """Build the real `solstat` binary from /repo's working tree with hooks enabled (--cfg solstat_verif).
     Uses its own target dir under /verif/build so /repo/target is left alone."""
     ensure_dirs()
-    env = dict(os.environ, CARGO_TARGET_DIR=REPO_TARGET, CARGO_NET_OFFLINE="true")
+    rt = REPO_TARGET if os.path.abspath(C.REPO) == "/repo" else REPO_TARGET + "-" + hashlib.sha256(os.path.abspath(C.REPO).encode()).hexdigest()[:10]
+    env = dict(os.environ, CARGO_TARGET_DIR=rt, CARGO_NET_OFFLINE="true")
     flags = env.get("RUSTFLAGS", "")
     if "solstat_verif" not in flags:
         env["RUSTFLAGS"] = (flags + " --cfg solstat_verif").strip()
     p = subprocess.run(["cargo", "build", "--offline", "--release", "--bin", "solstat"], cwd=C.REPO, env=env, capture_output=True, text=True)
     if p.returncode != 0:
         raise BuildError("solstat binary does not build:\n" + p.stderr[-4000:])
-    return os.path.join(REPO_TARGET, "release", "solstat")
+    return os.path.join(rt, "release", "solstat")
 
 
 def run_native(binary, check, tier, seed, extra=(), timeout=3600, env=None):
     cmd = [binary, check, "--tier", tier, "--seed", str(seed)] + list(extra)
     t0 = time.time()
-    e = dict(os.environ)
+    e = dict(os.environ, VX_REPO=C.REPO)
     if env:
         e.update(env)
     p = subprocess.run(cmd, capture_output=True, text=True, timeout=timeout, cwd=VERIF, env=e)
